@@ -33,6 +33,8 @@ def family(tier):
     fam = list(DP.family(tier))
     for variant in ("text", "number-printf", "switch-AnyOfMany", "switch-OneOfMany", "blob"):
         fam.append(dict(variant=variant, vec_enabled=True, grp_enabled=True, depth=1, ndev=2, ngroups=2, write_veto=True))
+    for variant in ("number-sexa3", "number-sexa5", "number-sexa8", "number-sexa9", "number-g"):
+        fam.append(dict(variant=variant, vec_enabled=True, grp_enabled=True, depth=1, ndev=1, ngroups=2))
     return fam
 
 
@@ -51,7 +53,7 @@ def value_of(kind, i):
     if kind == "text":
         return ("v1 \u00e9\u00b0 \u2603", "<&>\"q'")[i]
     if kind == "number":
-        return (12.5, -0.5)[i]
+        return (12.5, -0.50084)[i]  # -0:30:03.02: hundredths of a second below ten
     if kind == "switch":
         return ("On", "Off")[i]
     if kind == "light":
